@@ -1082,7 +1082,7 @@ func FamilyPool(r *Runner) {
 // cancellation ready (it picks one at random: several repetitions). A submission
 // that arrived during the round must get its outcome whichever branch is taken.
 func cancelAtTick(r *Runner) {
-	for rep := 0; rep < 6; rep++ {
+	for rep := 0; rep < 8; rep++ {
 		r.Scenario(fmt.Sprintf("pool/runsequencer/cancel-at-tick/%d", rep), false, func(w *World) error {
 			a, err := Setup(w, 0, 0)
 			if err != nil {
